@@ -1,7 +1,7 @@
 (* Extract/Driver.v — dispatch : sexp -> sexp, the single entry point of the extracted model *)
 From Coq Require Import List Bool Ascii String ZArith.
 From FM Require Import Base.Result Base.Str Base.Sexp Base.AstOp Model.Ast Model.FM Model.Ctc
-     Model.Queries Model.Sem Model.Ops Model.EqHash Model.PFM Format.Json Format.Glencoe Format.Xml Format.Uvl Format.Afm Format.Export Model.Metrics Extract.Codec.
+     Model.Queries Model.Sem Model.Ops Model.EqHash Model.PFM Format.Json Format.Glencoe Format.Xml Format.Uvl Format.Afm Format.Export Model.Metrics Model.GenRandom Extract.Codec.
 Import ListNotations.
 Open Scope string_scope.
 
@@ -157,6 +157,15 @@ Definition op_export_sat (m : fm) : sexp :=
                                    clafer_sat (fun n => existsb (fun s => String.eqb (w_safename s) n) sel) d) subsets))
                               (clafer_write m)]].
 
+Definition d_draw (s : sexp) : option draw :=
+  match s with
+  | SList [SAtom k; a] =>
+      if String.eqb k "c" then option_map DChoice (d_nat a)
+      else if String.eqb k "r" then option_map DRandint (d_z a) else None
+  | SList [SAtom _; a; b] => match d_z a, d_z b with Some x, Some y => Some (DUniform x y) | _, _ => None end
+  | _ => None
+  end.
+
 Definition bad (msg : string) : sexp := e_tag "bad-request" [SStr msg].
 
 Definition dispatch (req : sexp) : sexp :=
@@ -295,6 +304,17 @@ Definition dispatch (req : sexp) : sexp :=
       else if String.eqb op "export_sat" then
         match args with
         | [m] => match d_fm m with Some m' => op_export_sat m' | None => bad "fm" end
+        | _ => bad "arity"
+        end
+      else if String.eqb op "genrandom" then
+        match args with
+        | [SStr nm; dom; ol; SList draws; m] =>
+            let dom' := if is_nil dom then Some None
+                        else match d_domain dom with Some x => Some (Some x) | None => None end in
+            match dom', d_bool ol, omap d_draw draws, d_fm m with
+            | Some dm, Some b, Some dr, Some m' => e_result e_fm (gen_random_attribute nm dm b dr m')
+            | _, _, _, _ => bad "genrandom args"
+            end
         | _ => bad "arity"
         end
       else if String.eqb op "echo_fm" then
